@@ -28,6 +28,7 @@ CONSTANTS Cap,            \* capacity of auditLogChan
           CtxAwareSend,
           PipeCap,        \* lines a FIFO holds
           Http,           \* TRUE: --metrics/--healthz given: the HTTP server and its shutdown waiter are two more workers
+          AuditMetrics,   \* TRUE: --audit-metrics given: one more worker (a ticker loop that stats the audit log)
           Flood           \* TRUE: the audit writer always has another line (sustained load)
 
 VARIABLES
@@ -42,10 +43,11 @@ VARIABLES
     outok,      \* the output file accepts writes
     exit,       \* "running" | "exit0" | "exit1"
     hpc, wpc,   \* HTTP server worker (ListenAndServe) and its shutdown waiter: "off" | "run" | "returned"
-    port        \* "free" | "busy": whether :2112 can be bound
+    port,       \* "free" | "busy": whether :2112 can be bound
+    mpc         \* audit-metrics worker (cmd/cmd.go handleAuditLogMetrics): "off" | "run" | "returned"
 
 pvars == <<ctx, sig, spc, apc, ppc, gpc, sret, aret, pret, swr, awr, sleft, aleft, spipe, apipe, chan, outok,
-           exit, hpc, wpc, port>>
+           exit, hpc, wpc, port, mpc>>
 
 PInit ==
     /\ ctx = "live" /\ sig = FALSE
@@ -55,25 +57,26 @@ PInit ==
     /\ spipe = <<>> /\ apipe = <<>> /\ chan = 0 /\ outok = TRUE /\ exit = "running"
     /\ hpc = (IF Http THEN "run" ELSE "off") /\ wpc = (IF Http THEN "run" ELSE "off")
     /\ port \in {"free", "busy"}
+    /\ mpc = (IF AuditMetrics THEN "run" ELSE "off")
 
 Cancelled == ctx = "cancelled"
 CancelIf(b) == ctx' = IF b THEN "cancelled" ELSE ctx
 
 (* ------------------------------ environment ---------------------------- *)
-OpenS == swr = "absent" /\ swr' = "open" /\ UNCHANGED <<ctx, sig, spc, apc, ppc, gpc, sret, aret, pret, awr, sleft, aleft, spipe, apipe, chan, outok, exit, hpc, wpc, port>>
-OpenA == awr = "absent" /\ awr' = "open" /\ UNCHANGED <<ctx, sig, spc, apc, ppc, gpc, sret, aret, pret, swr, sleft, aleft, spipe, apipe, chan, outok, exit, hpc, wpc, port>>
+OpenS == swr = "absent" /\ swr' = "open" /\ UNCHANGED <<ctx, sig, spc, apc, ppc, gpc, sret, aret, pret, awr, sleft, aleft, spipe, apipe, chan, outok, exit, hpc, wpc, port, mpc>>
+OpenA == awr = "absent" /\ awr' = "open" /\ UNCHANGED <<ctx, sig, spc, apc, ppc, gpc, sret, aret, pret, swr, sleft, aleft, spipe, apipe, chan, outok, exit, hpc, wpc, port, mpc>>
 WriteS(k) ==
     /\ swr = "open" /\ sleft > 0 /\ Len(spipe) < PipeCap
     /\ spipe' = Append(spipe, k) /\ sleft' = sleft - 1
-    /\ UNCHANGED <<ctx, sig, spc, apc, ppc, gpc, sret, aret, pret, swr, awr, aleft, apipe, chan, outok, exit, hpc, wpc, port>>
+    /\ UNCHANGED <<ctx, sig, spc, apc, ppc, gpc, sret, aret, pret, swr, awr, aleft, apipe, chan, outok, exit, hpc, wpc, port, mpc>>
 WriteA(k) ==
     /\ awr = "open" /\ (Flood \/ aleft > 0) /\ Len(apipe) < PipeCap
     /\ apipe' = Append(apipe, k) /\ aleft' = IF Flood THEN aleft ELSE aleft - 1
-    /\ UNCHANGED <<ctx, sig, spc, apc, ppc, gpc, sret, aret, pret, swr, awr, sleft, spipe, chan, outok, exit, hpc, wpc, port>>
-CloseS == swr = "open" /\ swr' = "closed" /\ UNCHANGED <<ctx, sig, spc, apc, ppc, gpc, sret, aret, pret, awr, sleft, aleft, spipe, apipe, chan, outok, exit, hpc, wpc, port>>
-CloseA == awr = "open" /\ ~Flood /\ awr' = "closed" /\ UNCHANGED <<ctx, sig, spc, apc, ppc, gpc, sret, aret, pret, swr, sleft, aleft, spipe, apipe, chan, outok, exit, hpc, wpc, port>>
-Signal == ~sig /\ sig' = TRUE /\ ctx' = "cancelled" /\ UNCHANGED <<spc, apc, ppc, gpc, sret, aret, pret, swr, awr, sleft, aleft, spipe, apipe, chan, outok, exit, hpc, wpc, port>>
-OutputBreaks == outok /\ outok' = FALSE /\ UNCHANGED <<ctx, sig, spc, apc, ppc, gpc, sret, aret, pret, swr, awr, sleft, aleft, spipe, apipe, chan, exit, hpc, wpc, port>>
+    /\ UNCHANGED <<ctx, sig, spc, apc, ppc, gpc, sret, aret, pret, swr, awr, sleft, spipe, chan, outok, exit, hpc, wpc, port, mpc>>
+CloseS == swr = "open" /\ swr' = "closed" /\ UNCHANGED <<ctx, sig, spc, apc, ppc, gpc, sret, aret, pret, awr, sleft, aleft, spipe, apipe, chan, outok, exit, hpc, wpc, port, mpc>>
+CloseA == awr = "open" /\ ~Flood /\ awr' = "closed" /\ UNCHANGED <<ctx, sig, spc, apc, ppc, gpc, sret, aret, pret, swr, sleft, aleft, spipe, apipe, chan, outok, exit, hpc, wpc, port, mpc>>
+Signal == ~sig /\ sig' = TRUE /\ ctx' = "cancelled" /\ UNCHANGED <<spc, apc, ppc, gpc, sret, aret, pret, swr, awr, sleft, aleft, spipe, apipe, chan, outok, exit, hpc, wpc, port, mpc>>
+OutputBreaks == outok /\ outok' = FALSE /\ UNCHANGED <<ctx, sig, spc, apc, ppc, gpc, sret, aret, pret, swr, awr, sleft, aleft, spipe, apipe, chan, exit, hpc, wpc, port, mpc>>
 
 Env == OpenS \/ OpenA \/ (\E k \in {"accept", "fail"} : WriteS(k)) \/ (\E k \in {"good", "bad"} : WriteA(k))
        \/ CloseS \/ CloseA \/ Signal \/ OutputBreaks
@@ -84,7 +87,7 @@ SOpen ==
     /\ spc = "opening"
     /\ \/ Cancelled /\ spc' = "returned" /\ sret' = "ctx"
        \/ swr # "absent" /\ spc' = "reading" /\ sret' = sret
-    /\ UNCHANGED <<ctx, sig, apc, ppc, gpc, aret, pret, swr, awr, sleft, aleft, spipe, apipe, chan, outok, exit, hpc, wpc, port>>
+    /\ UNCHANGED <<ctx, sig, apc, ppc, gpc, aret, pret, swr, awr, sleft, aleft, spipe, apipe, chan, outok, exit, hpc, wpc, port, mpc>>
 
 \* ReadString: a line, or an error (EOF when the writer closed; once the context is cancelled the closer
 \* goroutine has closed the file and the read fails - the few lines bufio may still hold are ignored here)
@@ -93,7 +96,7 @@ SRead ==
     /\ \/ spipe # <<>> /\ ~Cancelled /\ spc' = "process" /\ UNCHANGED <<spipe, sret, ctx>>
        \/ ((spipe = <<>> /\ swr = "closed") \/ Cancelled) /\ spc' = "returned" /\ sret' = "err" /\ ctx' = "cancelled"
           /\ UNCHANGED spipe
-    /\ UNCHANGED <<sig, apc, ppc, gpc, aret, pret, swr, awr, sleft, aleft, apipe, chan, outok, exit, hpc, wpc, port>>
+    /\ UNCHANGED <<sig, apc, ppc, gpc, aret, pret, swr, awr, sleft, aleft, apipe, chan, outok, exit, hpc, wpc, port, mpc>>
 
 \* sshd processor: write the event (may fail), then for accepted logins the hand-off
 SProcess ==
@@ -103,27 +106,27 @@ SProcess ==
        /\ IF ~outok THEN spc' = "returned" /\ sret' = "err" /\ ctx' = "cancelled"
           ELSE IF k = "accept" THEN spc' = "sendlogin" /\ UNCHANGED <<sret, ctx>>
           ELSE spc' = "reading" /\ UNCHANGED <<sret, ctx>>
-    /\ UNCHANGED <<sig, apc, ppc, gpc, aret, pret, swr, awr, sleft, aleft, apipe, chan, outok, exit, hpc, wpc, port>>
+    /\ UNCHANGED <<sig, apc, ppc, gpc, aret, pret, swr, awr, sleft, aleft, apipe, chan, outok, exit, hpc, wpc, port, mpc>>
 
 \* select { ctx.Done | logins <- login }: the hand-off needs P in its select loop
 SSendLogin ==
     /\ spc = "sendlogin"
     /\ (ppc = "select" \/ Cancelled)
     /\ spc' = "reading"
-    /\ UNCHANGED <<ctx, sig, apc, ppc, gpc, sret, aret, pret, swr, awr, sleft, aleft, spipe, apipe, chan, outok, exit, hpc, wpc, port>>
+    /\ UNCHANGED <<ctx, sig, apc, ppc, gpc, sret, aret, pret, swr, awr, sleft, aleft, spipe, apipe, chan, outok, exit, hpc, wpc, port, mpc>>
 
 (* ------------------------------ audit ingester ------------------------- *)
 AOpen ==
     /\ apc = "opening"
     /\ \/ Cancelled /\ apc' = "returned" /\ aret' = "ctx"
        \/ awr # "absent" /\ apc' = "reading" /\ aret' = aret
-    /\ UNCHANGED <<ctx, sig, spc, ppc, gpc, sret, pret, swr, awr, sleft, aleft, spipe, apipe, chan, outok, exit, hpc, wpc, port>>
+    /\ UNCHANGED <<ctx, sig, spc, ppc, gpc, sret, pret, swr, awr, sleft, aleft, spipe, apipe, chan, outok, exit, hpc, wpc, port, mpc>>
 
 ARead ==
     /\ apc = "reading"
     /\ \/ apipe # <<>> /\ ~Cancelled /\ apc' = "sending" /\ UNCHANGED <<aret, ctx>>
        \/ ((apipe = <<>> /\ awr = "closed") \/ Cancelled) /\ apc' = "returned" /\ aret' = "err" /\ ctx' = "cancelled"
-    /\ UNCHANGED <<sig, spc, ppc, gpc, sret, pret, swr, awr, sleft, aleft, spipe, apipe, chan, outok, exit, hpc, wpc, port>>
+    /\ UNCHANGED <<sig, spc, ppc, gpc, sret, pret, swr, awr, sleft, aleft, spipe, apipe, chan, outok, exit, hpc, wpc, port, mpc>>
 
 \* AuditLogIngester.Process: AuditLogChan <- line
 ASend ==
@@ -133,7 +136,7 @@ ASend ==
           /\ UNCHANGED <<aret, ctx>>
        \/ /\ CtxAwareSend /\ Cancelled
           /\ apc' = "returned" /\ aret' = "ctx" /\ UNCHANGED <<chan, apipe, ctx>>
-    /\ UNCHANGED <<sig, spc, ppc, gpc, sret, pret, swr, awr, sleft, aleft, spipe, outok, exit, hpc, wpc, port>>
+    /\ UNCHANGED <<sig, spc, ppc, gpc, sret, pret, swr, awr, sleft, aleft, spipe, outok, exit, hpc, wpc, port, mpc>>
 
 (* ------------------------------ audit processor ------------------------ *)
 \* parse goroutine: take a line; a malformed line ends it with an error, a good
@@ -142,7 +145,7 @@ GRecv ==
     /\ gpc = "recv"
     /\ \/ Cancelled /\ gpc' = "ctx" /\ UNCHANGED chan
        \/ chan > 0 /\ chan' = chan - 1 /\ gpc' \in {"recv", "parseerr"} \cup (IF outok THEN {} ELSE {"writeerr"})
-    /\ UNCHANGED <<ctx, sig, spc, apc, ppc, sret, aret, pret, swr, awr, sleft, aleft, spipe, apipe, outok, exit, hpc, wpc, port>>
+    /\ UNCHANGED <<ctx, sig, spc, apc, ppc, sret, aret, pret, swr, awr, sleft, aleft, spipe, apipe, outok, exit, hpc, wpc, port, mpc>>
 
 \* Auditd.Read select loop
 PSelect ==
@@ -150,7 +153,7 @@ PSelect ==
     /\ \/ Cancelled /\ pret' = "ctx" /\ UNCHANGED ctx
        \/ gpc \in {"parseerr", "writeerr", "ctx"} /\ pret' = "err" /\ ctx' = "cancelled"
     /\ ppc' = "returned"
-    /\ UNCHANGED <<sig, spc, apc, gpc, sret, aret, swr, awr, sleft, aleft, spipe, apipe, chan, outok, exit, hpc, wpc, port>>
+    /\ UNCHANGED <<sig, spc, apc, gpc, sret, aret, swr, awr, sleft, aleft, spipe, apipe, chan, outok, exit, hpc, wpc, port, mpc>>
 
 (* ------------------------------ HTTP server (cmd/cmd.go) ---------------- *)
 \* server.ListenAndServe: fails at once when the port is taken (first error: cancels the group), otherwise
@@ -160,30 +163,38 @@ HServe ==
     /\ \/ port = "busy" /\ ctx' = "cancelled"
        \/ port = "free" /\ wpc = "returned" /\ UNCHANGED ctx
     /\ hpc' = "returned"
-    /\ UNCHANGED <<sig, spc, apc, ppc, gpc, sret, aret, pret, swr, awr, sleft, aleft, spipe, apipe, chan, outok, exit, wpc, port>>
+    /\ UNCHANGED <<sig, spc, apc, ppc, gpc, sret, aret, pret, swr, awr, sleft, aleft, spipe, apipe, chan, outok, exit, wpc, port, mpc>>
 
 \* the waiter: <-ctx.Done(); server.Shutdown(ctx)
 HWait ==
     /\ wpc = "run" /\ Cancelled
     /\ wpc' = "returned"
-    /\ UNCHANGED <<ctx, sig, spc, apc, ppc, gpc, sret, aret, pret, swr, awr, sleft, aleft, spipe, apipe, chan, outok, exit, hpc, port>>
+    /\ UNCHANGED <<ctx, sig, spc, apc, ppc, gpc, sret, aret, pret, swr, awr, sleft, aleft, spipe, apipe, chan, outok, exit, hpc, port, mpc>>
+
+(* ------------------------------ audit-log metrics (cmd/cmd.go) --------- *)
+\* for { select { case <-ticker.C: stat the audit log, set two gauges (a failing stat is logged, the loop goes on);
+\*                case <-ctx.Done(): return ctx.Err() } }  -- the tick changes nothing the model sees
+MReturn ==
+    /\ mpc = "run" /\ Cancelled
+    /\ mpc' = "returned"
+    /\ UNCHANGED <<ctx, sig, spc, apc, ppc, gpc, sret, aret, pret, swr, awr, sleft, aleft, spipe, apipe, chan, outok, exit, hpc, wpc, port>>
 
 (* ------------------------------ errgroup / main ------------------------ *)
-AllReturned == spc = "returned" /\ apc = "returned" /\ ppc = "returned" /\ hpc # "run" /\ wpc # "run"
+AllReturned == spc = "returned" /\ apc = "returned" /\ ppc = "returned" /\ hpc # "run" /\ wpc # "run" /\ mpc # "run"
 Failure == sret = "err" \/ aret = "err" \/ pret = "err"
 
 Exit ==
     /\ exit = "running" /\ AllReturned
     /\ exit' = "exit1"          \* eg.Wait returns the first non-nil error (ctx.Err() counts): log.Fatalln
-    /\ UNCHANGED <<ctx, sig, spc, apc, ppc, gpc, sret, aret, pret, swr, awr, sleft, aleft, spipe, apipe, chan, outok, hpc, wpc, port>>
+    /\ UNCHANGED <<ctx, sig, spc, apc, ppc, gpc, sret, aret, pret, swr, awr, sleft, aleft, spipe, apipe, chan, outok, hpc, wpc, port, mpc>>
 
-Worker == SOpen \/ SRead \/ SProcess \/ SSendLogin \/ AOpen \/ ARead \/ ASend \/ GRecv \/ PSelect \/ HServe \/ HWait \/ Exit
+Worker == SOpen \/ SRead \/ SProcess \/ SSendLogin \/ AOpen \/ ARead \/ ASend \/ GRecv \/ PSelect \/ HServe \/ HWait \/ MReturn \/ Exit
 PNext == Env \/ Worker \/ (exit # "running" /\ UNCHANGED pvars)
 
 PSpec == PInit /\ [][PNext]_pvars
          /\ WF_pvars(SOpen) /\ WF_pvars(SRead) /\ WF_pvars(SProcess) /\ WF_pvars(SSendLogin)
          /\ WF_pvars(AOpen) /\ WF_pvars(ARead) /\ WF_pvars(ASend) /\ WF_pvars(GRecv) /\ WF_pvars(PSelect)
-         /\ WF_pvars(HServe) /\ WF_pvars(HWait) /\ WF_pvars(Exit)
+         /\ WF_pvars(HServe) /\ WF_pvars(HWait) /\ WF_pvars(MReturn) /\ WF_pvars(Exit)
 
 (***************************************************************************)
 (* C08 / C13                                                               *)
@@ -212,7 +223,7 @@ ErrorCancels == (sret = "err" \/ aret = "err" \/ pret = "err") => Cancelled
 (*   flood      in the middle of sustained traffic                         *)
 (*   idle/busy  P: select loop without / with traffic                      *)
 (***************************************************************************)
-WorkerScenarios ==
+BaseWorkerScenarios ==
     {[worker |-> "A", state |-> st, cap |-> c] : st \in {"opening", "reading", "partial", "flood"}, c \in {1}}
     \cup {[worker |-> "A", state |-> "sending", cap |-> c] : c \in {0, 1, 4, 64}}
     \cup {[worker |-> "A", state |-> "readingfull", cap |-> c] : c \in {1, 4}}
@@ -220,4 +231,11 @@ WorkerScenarios ==
     \* S blocked handing over a login: cap selects the login variant (password, key, certificate, padded key)
     \cup {[worker |-> "S", state |-> "sending", cap |-> c] : c \in {0, 1, 2, 3}}
     \cup {[worker |-> "P", state |-> st, cap |-> c] : st \in {"idle", "busy", "loginpending"}, c \in {0, 4}}
+
+\* stall: how long the worker has been in the blocking state when its context is cancelled (ms); the long stalls
+\* look at workers that change their way of waiting after a while (a warning timer, a retry, a fallback)
+WorkerScenarios ==
+    {[worker |-> s.worker, state |-> s.state, cap |-> s.cap, stall |-> 0] : s \in BaseWorkerScenarios}
+    \cup {[worker |-> s.worker, state |-> s.state, cap |-> s.cap, stall |-> 2600] :
+            s \in {t \in BaseWorkerScenarios : t.state \in {"sending", "reading", "loginpending"} /\ t.cap \in {0, 1, 2, 3}}}
 =============================================================================
